@@ -161,7 +161,15 @@ def check_abort_no_retry(
 
     Returns True if should abort (and records cancel with breaker).
     """
-    if abort_if is not None and abort_if():
+    if abort_if is None:
+        return False
+    try:
+        aborted = abort_if()
+    except BaseException:
+        # The call has already been admitted by the breaker: settle it.
+        record_cancel(ctx)
+        raise
+    if aborted:
         record_cancel(ctx)
         return True
     return False
